@@ -418,6 +418,8 @@ type Op struct {
 	Af   bool     `json:"af,omitempty"`
 	Cf   bool     `json:"cf,omitempty"`
 	Mf   bool     `json:"mf,omitempty"` // Add: the joiner's setreplicamode(WO) fails
+	Cs   string   `json:"cs,omitempty"`  // Start: the replica's persisted clone status (clone fixture)
+	Cs2  string   `json:"cs2,omitempty"` // Start: the status it changes to while the controller polls
 	F    []string `json:"F,omitempty"` // armed faults (node names)
 	Kind string   `json:"kind,omitempty"`
 	Name string   `json:"name,omitempty"`
@@ -851,14 +853,38 @@ func (r *run) exec1(op Op) {
 			r.fac.createFail[n.addr()] = true
 			r.fac.mu.Unlock()
 		}
+		// clone fixture: the replica's persisted clone status before the start (cs), and the status
+		// it changes to 2.5 s later while the controller polls it (cs2)
+		final := op.Cs
+		if op.Cs != "" || op.Cs2 != "" {
+			if st, _ := n.s.Status(); st == replica.Closed {
+				if n.s.Open() == nil {
+					if rp := n.s.Replica(); rp != nil {
+						rp.SetCloneStatus(op.Cs)
+					}
+					n.s.Close()
+				}
+			}
+			if op.Cs2 != "" {
+				final = op.Cs2
+				go func() {
+					time.Sleep(2500 * time.Millisecond)
+					if rp := n.s.Replica(); rp != nil {
+						rp.SetCloneStatus(op.Cs2)
+					}
+				}()
+			}
+		}
 		mark := r.fac.count(n.addr())
 		err := c.Start(n.addr())
-		r.fac.retract(n.addr(), mark, err)
+		if err == nil || !strings.Contains(err.Error(), "clone status returned error") {
+			r.fac.retract(n.addr(), mark, err) // (a failed clone was attached for a moment: its monitor exists)
+		}
 		r.fac.mu.Lock()
 		r.fac.createFail = map[string]bool{}
 		r.fac.mu.Unlock()
 		res, et := resOf(err)
-		r.emit("Start", map[string]interface{}{"a": op.A, "cf": op.Cf}, res, et, nil)
+		r.emit("Start", map[string]interface{}{"a": op.A, "cf": op.Cf, "cs": final}, res, et, nil)
 	case "Add":
 		n := r.node(op.A)
 		if op.Cf {
